@@ -39,10 +39,12 @@ AcfOk(m, h, limit) ==
   /\ G(m, h, "Can", "acf_msg_type") = 1
   /\ G(m, h, "Can", "acf_msg_length") * 4 >= HdrLen["Can"] + G(m, h, "Can", "pad")
   /\ h + G(m, h, "Can", "acf_msg_length") * 4 <= limit
+\* what a malformed packet "decodes to": frame-shaped (TLC can compare it with real frames) but equal to no frame (flags are 0/1)
+BadPacket == << [ id |-> << >>, eff |-> 2, rtr |-> 2, fdf |-> 2, brs |-> 2, esi |-> 2, data |-> << >> ] >>
 RECURSIVE Walk(_, _, _)
 Walk(m, h, limit) ==                     \* frames of the ACF messages in m[h..limit); "bad" if malformed
   IF h = limit THEN << >>
-  ELSE IF ~AcfOk(m, h, limit) THEN <<"bad">>
+  ELSE IF ~AcfOk(m, h, limit) THEN BadPacket
   ELSE <<AcfFrame(m, h)>> \o Walk(m, h + G(m, h, "Can", "acf_msg_length") * 4, limit)
 
 CfOff == IF Udp = 1 THEN HdrLen["Udp"] ELSE 0
@@ -53,7 +55,7 @@ CfOk(p) ==
   /\ Len(p) >= CfOff + HdrLen[CfView]
   /\ G(p, CfOff, CfView, "subtype") = (IF Tscf = 1 THEN 5 ELSE 130)
   /\ G(p, CfOff, CfView, CfLenField) = Len(p) - CfOff - HdrLen[CfView]
-Decode(p) == IF CfOk(p) THEN Walk(p, CfOff + HdrLen[CfView], Len(p)) ELSE <<"bad">>
+Decode(p) == IF CfOk(p) THEN Walk(p, CfOff + HdrLen[CfView], Len(p)) ELSE BadPacket
 \* the talker numbers its packets
 Numbered(p, k) == /\ G(p, CfOff, CfView, "sequence_num") = k % 256
                   /\ (Udp = 1 => SubBytes(p, 0, 4) = SubBytes(V64(k), 4, 4))
